@@ -264,3 +264,8 @@ pub fn mask_classes(l: usize, seed: u64) -> Vec<(String, Vec<usize>)> {
 pub fn mask_to_indexes(mask: u32, l: usize) -> Vec<usize> {
     (0..l).filter(|i| mask >> i & 1 == 1).collect()
 }
+
+/// subset of 0..n from a 32-bit mask (period 32, rotated per block); equals mask_to_indexes for n <= 32
+pub fn mask_idx(mask: u32, n: usize) -> Vec<usize> {
+    (0..n).filter(|i| mask.rotate_left((*i / 32) as u32) >> (i % 32) & 1 == 1).collect()
+}
